@@ -283,13 +283,14 @@ def s_gs(ctx, drv, I, case):
             ctx.disagree("scatter-int", case, mre, s_err or "ok", "error behaviour differs")
     else:
         if sc_.real.reshape(-1).tolist() != [float(v) for v in mre["ok"]] or sc_.imag.reshape(-1).tolist() != [float(v) for v in mim["ok"]]:
-            ctx.disagree("scatter-int", case, mre["ok"][:20], sc_.real.reshape(-1).tolist()[:20], "sum_patches complex")
+            ctx.disagree("scatter-int", case, {"re": [float(v) for v in mre["ok"][:24]], "im": [float(v) for v in mim["ok"][:24]]},
+                         {"re": sc_.real.reshape(-1).tolist()[:24], "im": sc_.imag.reshape(-1).tolist()[:24]}, "sum_patches complex")
         if sb.reshape(-1).tolist() != mre["ok"]:
             ctx.disagree("scatter-int", case, mre["ok"][:20], sb.reshape(-1).tolist()[:20], "sum_patches_base int64")
         # float model of the complex path (re/im scattered separately)
         mf = ask(drv, {"op": "sum_patches_cx", "n": n, "patches": enc_flat(p), "idx": idxl})
         if not np.array_equal(dec_flat(mf["ok"]), sc_.reshape(-1)):
-            ctx.disagree("scatter-cx", case, None, None, "sum_patches_cx float model differs")
+            ctx.disagree("scatter-cx", case, str(dec_flat(mf["ok"])[:12].tolist()), str(sc_.reshape(-1)[:12].tolist()), "sum_patches_cx float model differs")
     if g_err or s_err:
         ctx.dist["gs.error-cases"] += 1
         if not bad:
@@ -299,7 +300,7 @@ def s_gs(ctx, drv, I, case):
     mg = ask(drv, {"op": "get_patches", "obj": [enc_flat(obj[s]) for s in range(S)], "idx": idxl})["ok"]
     for s in range(S):
         if not np.array_equal(dec_flat(mg[s]), g[s].reshape(-1)):
-            ctx.disagree("gather-cx", case, None, None, f"get_patches float model differs in slice {s}")
+            ctx.disagree("gather-cx", case, str(dec_flat(mg[s])[:12].tolist()), str(g[s].reshape(-1)[:12].tolist()), f"get_patches float model differs in slice {s}")
     # ---- property predicate: exact adjointness in integer arithmetic, per slice
     def cint(a):
         a = np.asarray(a).reshape(-1)
@@ -488,7 +489,8 @@ def s_prop(ctx, drv, I, case):
     p1 = I.Base._propagate_array(None, at, Qt[0])
     p1o = I.Obj._propagate_array(None, at, Qt[0])
     if not torch.equal(p1, p1o):
-        ctx.disagree("propagate", case, None, None, "PtychographyBase._propagate_array != ObjectBase._propagate_array")
+        ctx.disagree("propagate", case, {"max": maxabs(p1.numpy())}, {"max": maxabs(p1o.numpy())},
+                     "PtychographyBase._propagate_array != ObjectBase._propagate_array (first is reported as model)")
     p1n = p1.numpy()
     for m_ in range(M):
         for b in range(B):
@@ -636,6 +638,12 @@ def s_proj(ctx, drv, I, case):
         for m_ in range(M):
             corr(ctx, f"fourier-projection-{sk}", case, dec_img(mp[m_]), Pn[m_, b], TOL64)
             corr(ctx, f"gradient-step-{sk}", case, dec_img(mg[m_]), Gn[m_, b], TOL64)
+    # estimate_amplitudes (eps = 1e-9 inside; used by the loss path, no longer by the projection)
+    cc = rng.chance(0.5)
+    ea = I.Base.estimate_amplitudes(st, xt.clone(), corner_centered=cc).numpy()
+    for b in range(B):
+        me = dec_rows(ask(drv, {"op": "estimate_amplitudes", "waves": [enc_img(x[m_, b]) for m_ in range(M)], "corner": cc})["ok"])
+        corr(ctx, "estimate-amplitudes", case, me, ea[b], TOL64)
     # --- predicates on the implementation
     obs = oracle_amplitudes(Pn)
     ff_in = oracle_amplitudes(x)
@@ -653,13 +661,111 @@ def s_proj(ctx, drv, I, case):
     ctx.sample({k: case[k] for k in ("stream", "shape", "modes", "batch", "overlap_scale", "amp_kind", "overlap_kind")}, limit=18)
 
 
+# ----------------------------------------------------------------------------- stream: bound methods of a real Ptychography instance
+def s_instance(ctx, drv, I, case):
+    """the same operators called as bound methods of a real (tiny) Ptychography object built by
+    props/ptycho_tiny.py: its own patch indices (wrap-around, repeats), probe, detector, dispatch on num_probes"""
+    import warnings
+    from qv.prng import Rng
+    from props import ptycho_tiny as pt
+    torch = I.torch
+    rng = Rng(case["rseed"])
+    nr, nc = rng.randint(4, 10), rng.randint(4, 10)
+    M = rng.randint(1, 3)
+    scan = (rng.randint(2, 3), rng.randint(2, 3))
+    case.update({"shape": [nr, nc], "modes": M, "scan": list(scan)})
+    ctx.count()
+    ctx.mark(("instance", psig(nr, nc), M))
+    ctx.dist[f"instance.modes={M}"] += 1
+    ctx.dist[f"instance.parity={psig(nr, nc)}"] += 1
+    with warnings.catch_warnings():
+        warnings.simplefilter("ignore")
+        p = pt.make_ptycho(scan=scan, roi=(nr, nc), seed=rng.randint(0, 50), rng_seed=rng.randint(0, 50), num_probes=M)
+    if int(p.num_probes) != M or tuple(int(v) for v in p.roi_shape) != (nr, nc):
+        ctx.disagree("instance", case, [M, nr, nc], [int(p.num_probes)] + [int(v) for v in p.roi_shape], "factory geometry")
+        return
+    sk = "single" if M == 1 else "mixed"
+    key_par = "odd" if "o" in psig(nr, nc)[:2] else "even"
+    # ---- (a) projection through the bound method, float64 data
+    B = rng.randint(1, 2)
+    x = carr(rng, (M, B, nr, nc)) * rng.choice([1.0, 2.0 ** -10])
+    A = rarr(rng, (B, nr, nc), 0, 2)
+    for i in range(A.size):
+        if rng.chance(0.15):
+            A.reshape(-1)[i] = 0.0
+    At, xt = T(I, A, torch.float64), T(I, x, torch.complex128)
+    P = p.fourier_projection(At.clone(), xt.clone())
+    G = p.gradient_step(At.clone(), xt.clone())
+    Pn = P.numpy()
+    for b in range(B):
+        waves = [enc_img(x[m_, b]) for m_ in range(M)]
+        mp = ask(drv, {"op": "fourier_projection", "num_probes": M, "A": enc_rows(A[b]), "waves": waves})["ok"]
+        mg = ask(drv, {"op": "gradient_step", "num_probes": M, "A": enc_rows(A[b]), "waves": waves})["ok"]
+        for m_ in range(M):
+            corr(ctx, f"instance-fourier-projection-{sk}", case, dec_img(mp[m_]), Pn[m_, b], TOL64)
+            corr(ctx, f"instance-gradient-step-{sk}", case, dec_img(mg[m_]), G.numpy()[m_, b], TOL64)
+    good = np.ones_like(A, dtype=bool) if M == 1 else (oracle_amplitudes(x) != 0)
+    pred(ctx, f"proj-exact:{sk}:{key_par}", "Fourier projection does not return the measured amplitudes (detector convention)", case,
+         np.where(good, oracle_amplitudes(Pn), A), A, TOL64, f"projection exactness {sk}")
+    det = np.sqrt(p.detector_model.forward(P).numpy())
+    pred(ctx, f"proj-exact-detector:{sk}:{key_par}", "sqrt(detector_model.forward(projection)) != measured amplitudes", case,
+         np.where(good, det, A), A, TOL64, f"projection exactness via detector {sk}")
+    P2 = p.fourier_projection(At.clone(), P.clone()).numpy()
+    pred(ctx, f"proj-idempotent:{sk}:{key_par}", "Fourier projection is not idempotent", case, P2, Pn, TOL64, f"projection idempotence {sk}")
+    # ---- (b) the instance's own patch indices: exact integer adjointness
+    idx_t = p.dset.patch_indices
+    idx = idx_t.numpy().astype(np.int64)
+    H, W = (int(v) for v in p.obj_shape_full[-2:])
+    n = H * W
+    repeats = len(set(idx.reshape(-1).tolist())) < idx.size
+    ctx.dist[f"instance.patch_index_repeats={repeats}"] += 1
+    obj = iarr(rng, (1, H, W)) + 1j * iarr(rng, (1, H, W))
+    pw = iarr(rng, idx.shape) + 1j * iarr(rng, idx.shape)
+    g = p.obj_model._get_obj_patches(T(I, obj, torch.complex128), idx_t).numpy()
+    sc_ = I.pu.sum_patches(T(I, pw, torch.complex128), idx_t, (H, W)).numpy()
+    idxl = idx.reshape(-1).tolist()
+    for part in (np.real, np.imag):
+        mgi = ask(drv, {"op": "gather_int", "obj": part(obj[0]).astype(np.int64).reshape(-1).tolist(), "idx": idxl})
+        msi = ask(drv, {"op": "scatter_int", "n": n, "patches": part(pw).astype(np.int64).reshape(-1).tolist(), "idx": idxl})
+        if "err" in mgi or part(g[0]).reshape(-1).tolist() != [float(v) for v in mgi["ok"]]:
+            ctx.disagree("instance-gather-int", case, str(mgi)[:200], part(g[0]).reshape(-1).tolist()[:20], "own patch indices")
+        if "err" in msi or part(sc_).reshape(-1).tolist() != [float(v) for v in msi["ok"]]:
+            ctx.disagree("instance-scatter-int", case, str(msi)[:200], part(sc_).reshape(-1).tolist()[:20], "own patch indices")
+    ci = lambda a: [complex(int(round(z.real)), int(round(z.imag))) for z in np.asarray(a).reshape(-1)]
+    lhs = sum(a.conjugate() * b for a, b in zip(ci(g[0]), ci(pw)))
+    rhs = sum(a.conjugate() * b for a, b in zip(ci(obj[0]), ci(sc_)))
+    if lhs != rhs:
+        ctx.pred_fail("adjoint:instance", "<gather(o,idx),p> != <o,scatter(p,idx)> on the dataset's own patch indices", case, observed=str(lhs), required=str(rhs))
+    # ---- (c) float32 forward pass through the instance: pure-phase object, own probe, descan ramp
+    nb = idx.shape[0]
+    phi = rarr(rng, (1, H, W), -3, 3, 64).astype(np.float32)
+    patches = p.obj_model._get_obj_patches(T(I, phi, torch.float32), idx_t)                      # exp(1j*phi) branch
+    fract = T(I, np.array([[dy(rng, -0.5, 0.5, 64), dy(rng, -0.5, 0.5, 64)] for _ in range(nb)]), torch.float32)
+    shifted = p.probe_model.forward(fract)                                                       # (M, nb, nr, nc) complex64
+    descan = None if rng.chance(0.4) else T(I, np.array([[dy(rng, -1, 1, 64), dy(rng, -1, 1, 64)] for _ in range(nb)]), torch.float32)
+    ctx.dist[f"instance.descan={'none' if descan is None else 'ramp'}"] += 1
+    _pp, overlap = p.forward_operator(patches, shifted, descan)
+    inten = p.detector_model.forward(overlap).numpy().astype(np.float64)
+    ptot = float(np.sum(np.abs(p.probe_model.probe.detach().numpy().astype(np.complex128)) ** 2))
+    pred(ctx, f"purephase-energy:instance:{psig(nr, nc)}", "summed predicted diffraction intensity != probe total intensity (real instance, float32)", case,
+         inten.sum(axis=(1, 2)) / ptot, np.ones(nb), TOL32, "pure-phase energy on a real instance (float32)")
+    if descan is None:   # model of the same pass for one pattern (float32 data → 5e-4 rule)
+        b = rng.below(nb)
+        pn, sn = patches.numpy().astype(np.complex128), shifted.numpy().astype(np.complex128)
+        r = ask(drv, {"op": "overlap_projection", "patches": [enc_img(pn[0, b])], "props": [], "probes": [enc_img(sn[m_, b]) for m_ in range(M)]})["ok"]
+        md = dec_rows(ask(drv, {"op": "detector", "waves": r["overlap"]})["ok"])
+        corr(ctx, "instance-forward", case, md, inten[b], TOL32)
+    ctx.sample({k: case[k] for k in ("stream", "shape", "modes", "scan")}, limit=20)
+
+
 STREAMS = {           # name: (function, quick count, thorough count)
-    "gs": (s_gs, 120, 2500),
-    "shiftint": (s_shiftint, 50, 1000),
-    "shift": (s_shift, 70, 1500),
-    "prop": (s_prop, 60, 1500),
-    "forward": (s_forward, 60, 1500),
-    "proj": (s_proj, 90, 2000),
+    "gs": (s_gs, 300, 4000),
+    "shiftint": (s_shiftint, 120, 1500),
+    "shift": (s_shift, 160, 2000),
+    "prop": (s_prop, 140, 2000),
+    "forward": (s_forward, 140, 2000),
+    "proj": (s_proj, 220, 3000),
+    "instance": (s_instance, 30, 300),
 }
 
 
